@@ -511,7 +511,7 @@ func runRecv(in recvIn) Sx {
 			want++
 		}
 	}
-	deadline := time.Now().Add(2 * time.Second)
+	deadline := time.Now().Add(8 * time.Second)
 	for {
 		lg.mu.Lock()
 		n := len(lg.async)
@@ -767,7 +767,7 @@ func runRecvWS(in recvIn) Sx {
 		}
 		want++
 	}
-	deadline := time.Now().Add(3 * time.Second)
+	deadline := time.Now().Add(8 * time.Second)
 	for time.Now().Before(deadline) {
 		lg.mu.Lock()
 		n := len(lg.async)
@@ -792,7 +792,10 @@ func runRecvWS(in recvIn) Sx {
 			wantA++
 		}
 	}
-	for time.Now().Before(deadline) {
+	// (own deadline: the loop may already have ended -- on a rejected element -- while its last answer is still
+	// travelling to the server; it only bounds the wait for an answer that was never written)
+	adl := time.Now().Add(4 * time.Second)
+	for time.Now().Before(adl) {
 		smu.Lock()
 		na := len(answers)
 		smu.Unlock()
